@@ -532,6 +532,19 @@ Proof.
   destruct Hrk as [-> | ->]; exact H.
 Qed.
 
+(** [vecs[v].at(idx).lazy_clone()^depth .downcast::<T>()]: one Clone of the element, whatever the depth of the chain;
+    the clone is the caller's, who destroys it; the vector is untouched *)
+Definition sp_lazy_down (c : cfg) (st : astate) (nx : N) (v : nat) (idx : N) : option sres :=
+  match get_a v st with
+  | None => None
+  | Some a =>
+      if idx <? N.of_nat (length (a_xs a))
+      then let t := nth (N.to_nat idx) (a_xs a) 0 in
+           let n := tok c nx in
+           Some (ok_res [n] (EClone t n :: drop_ev c n) st (nx + 1))
+      else Some (panic_res PIndex [] st nx)
+  end.
+
 Definition spec_step (c : cfg) (st : astate) (nx : N) (o : op) : option sres :=
   match o with
   | ONew dst bk => sp_new c st nx dst bk
@@ -563,6 +576,7 @@ Definition spec_step (c : cfg) (st : astate) (nx : N) (o : op) : option sres :=
            end
   | OWrite _ v idx => sp_write c st nx v idx
   | OSwap pr v1 i v2 j => if pr =? 0 then sp_swap c st nx v1 i v2 j else None
+  | OLazyDown _ v idx => sp_lazy_down c st nx v idx
   | ODownWrong v k idx =>
       (* a removal handle whose downcast to another type gives None: the element is destroyed as by a
          dropped handle; reported: type id ok, size, three refused downcasts *)
